@@ -393,6 +393,7 @@ def main(argv=None):
     pool = Pool(args.jobs, prop, args.seed, tier)
     agg = evidence.Aggregate(pid, tier, args.seed)
     first_bad = []
+    walls = []
     errors = []
     timeouts = []
 
@@ -410,6 +411,7 @@ def main(argv=None):
             timeouts.append(res)
             return
         agg.add(res)
+        walls.append((res.get('wall', 0), res['index']))
         for v in res['violations']:
             k = match_known(v, known)
             if k is not None:
@@ -483,6 +485,11 @@ def main(argv=None):
 
     for line in known_lines:
         print(line)
+    if os.environ.get('VERIF_VERBOSE'):
+        walls.sort(reverse=True)
+        print('slowest runs (s, index):', [(round(w, 1), i)
+                                           for w, i in walls[:8]],
+              'sum %.1f' % sum(w for w, _ in walls))
     wall = time.monotonic() - t_start
     if not args.no_evidence:
         evidence.write(agg, prop, wall, len(violations_out), known_lines)
